@@ -404,6 +404,17 @@ def check_metadata(ctx, r):
             opaque_dispatch.append(n_)
         if isinstance(n_, ast.Match):
             opaque_dispatch.append(n_)
+    # a kind that is named in jaxtyped (or in a function jaxtyped calls) but not in a branch the rule reads: no verdict
+    mention_scopes = [jt.node]
+    for c_ in [n_ for n_ in walk_scope(jt.node) if isinstance(n_, ast.Call)]:
+        t_ = m.resolve_call(jt, c_)
+        if t_.kind == "func" and t_.target is not jt and t_.target.module is jt.module and t_.target.parent is None:
+            mention_scopes.append(t_.target.node)
+    for kind in ("classmethod", "staticmethod", "property"):
+        if found.get(kind) is None:
+            ms = [n_ for sc in mention_scopes for n_ in (walk_scope(sc) if sc is jt.node else ast.walk(sc)) if isinstance(n_, ast.Name) and n_.id == kind and isinstance(n_.ctx, ast.Load)]
+            if ms:
+                opaque_dispatch.append(ms[0])
     for kind in ("classmethod", "staticmethod"):
         st = found.get(kind)
         if st is None:
@@ -698,6 +709,39 @@ def check_template_hygiene(ctx, r):
             n += 1
             a0 = c.args[0] if c.args else None
             txt = norm(a0)
+            incremental = None
+            if isinstance(a0, ast.Name) and a0.id not in f.params:
+                # the names to avoid are kept in a local: what it is built from, and -- when it is updated in place -- whether every key
+                # stored into the exec scope is also added to it (then it equals scope.keys() | <its initial contents>)
+                defs_ = c05._assignments_to(f, a0.id)
+                txt = " ".join(norm(d[1]) for d in defs_ if d[1] is not None)
+                adds = [x for x in walk_scope(f.node) if isinstance(x, ast.Call) and isinstance(x.func, ast.Attribute) and isinstance(x.func.value, ast.Name)
+                        and x.func.value.id == a0.id and x.func.attr in ("add", "update")]
+                augs = [x for x in walk_scope(f.node) if isinstance(x, ast.AugAssign) and isinstance(x.target, ast.Name) and x.target.id == a0.id]
+                if adds or augs:
+                    if augs or any(x.func.attr != "add" or len(x.args) != 1 for x in adds) or not defs_:
+                        raise AnalysisError(f"C07.5: the set of names to avoid (`{a0.id}`) is maintained in a way the rule cannot follow")
+                    added = {norm(x.args[0]) for x in adds}
+                    keys = set()
+                    # a key stored after the last generation from this set (and not in a loop with one) needs no avoiding any more
+                    gens = [x for x in walk_scope(f.node) if isinstance(x, ast.Call) and x.args and isinstance(x.args[0], ast.Name) and x.args[0].id == a0.id
+                            and m.resolve_call(f, x).kind == "func" and m.resolve_call(f, x).target.name == "_gensym"]
+                    last_gen = max(x.lineno for x in gens)
+                    gen_loops = [lp for lp in walk_scope(f.node) if isinstance(lp, (ast.For, ast.While)) and any(y is g_ for g_ in gens for y in ast.walk(lp))]
+                    for st in walk_scope(f.node):
+                        if isinstance(st, ast.Assign) and st.lineno > last_gen and not any(y is st for lp in gen_loops for y in ast.walk(lp)):
+                            continue
+                        if isinstance(st, ast.Assign):
+                            for tg in st.targets:
+                                if isinstance(tg, ast.Subscript) and norm(tg.value) == "scope":
+                                    keys.add(norm(tg.slice))
+                                if isinstance(tg, ast.Name) and tg.id == "scope" and isinstance(st.value, ast.Dict):
+                                    keys |= {norm(k_) for k_ in st.value.keys if k_ is not None}
+                    incremental = keys <= added or all(k_ in added or k_ in txt for k_ in keys)
+                    if not incremental:
+                        raise AnalysisError(f"C07.5: `{a0.id}` is updated in place, and not every key stored in the exec scope ({sorted(keys - added)}) is "
+                                            "visibly added to it; whether generated names avoid the scope cannot be decided")
+                    txt += " scope"
             mentions_params = "param_names" in txt or "signature.parameters" in txt
             if not mentions_params:
                 ctx.bad("C07.5", f, c, "a generated name is not kept distinct from the parameter names of the decorated function: "
